@@ -10,6 +10,9 @@ for s in $SEEDS; do
   [ -f seeded/$s/patch.diff ] || continue
   if [ -f seeded/$s/meta.json ]; then P=$(python3 -c "import json,re;m=json.load(open('seeded/$s/meta.json'));p=m.get('property','');r=re.findall(r'C\d\d',p+' '+m.get('what_i_ran',''));print(' '.join(dict.fromkeys(r)))"); else P=""; fi
   [ -z "$P" ] && P=$(echo $s | grep -o 'C[0-9][0-9]' | head -1)
+  # several instances share the work: the first to create the claim directory runs the seed (REGRESS_CLAIMS=<dir>);
+  # claims are per seed, not per (seed, property), because the trials of one seed share a scratch directory
+  if [ -n "${REGRESS_CLAIMS:-}" ]; then mkdir -p $REGRESS_CLAIMS; mkdir $REGRESS_CLAIMS/${s} 2>/dev/null || continue; fi
   for p in $P; do
     tools/try_seed.sh $s $p > /var/tmp/vp/regress_${s}_${p}.out 2>&1
     rc=$(grep -o 'exit=[0-9]*' /var/tmp/vp/regress_${s}_${p}.out | tail -1)
